@@ -183,3 +183,21 @@ def reg_parse_header(reg, prop):
                            "implies(0 <= j0 and j0 < _i, acks[_i - 1 - j0] == be32at(data, msg_size + 4 * j0))",
                            "msg.send_flags == data[0] and val(msg.packet_id) == be32at(data, 1)"]}},
         frame=None))
+
+    # the zero-coded datagram: same header fields; the name and the extra field are read from an expansion of the first bytes
+    # of the body. The window handed to the expander must cover what is read from its expansion - the message number (at most 4
+    # bytes) and the extra field (offset bytes) - or be all that is left of the datagram: one expanded byte takes at most two
+    # encoded ones (C03: a zero run of up to 255 is two bytes, anything else one).
+    import dataclasses
+    plain = reg.fns["hippolyzer.lib.base.message.udpdeserializer:UDPMessageDeserializer._parse_message_header@plain"]
+    zc = dataclasses.replace(
+        plain, key="hippolyzer.lib.base.message.udpdeserializer:UDPMessageDeserializer._parse_message_header@zerocoded",
+        requires=["len(data) >= 1", "(data[0] & 128) != 0"],
+        externals=dict(plain.externals, **{"self.zero_code_expand": {
+            "returns": "Bytes", "record_as": "peek", "may_raise": "ValueError", "doc": "expansion of the first bytes of the body (C03)"}}),
+        ensures=list(plain.ensures) + [
+            "ncalls('peek') == 1",
+            "called_with('peek', lambda arg0: arg0 == val(result.raw_body)[:len(arg0)] and "
+            "(len(arg0) >= 2 * (4 + data[5]) or len(arg0) == len(val(result.raw_body))))"],
+        also=[])
+    reg.add_fn(zc)
